@@ -33,3 +33,46 @@ package chk
 //@ loop 2 at "range res" invariant !fatal && !found
 //@ assigns fatal
 //@ props C17
+
+//@ unit clientError
+//@ requires !fatal && tagof(t) != 0
+//@ ensures[fatal-iff-other-type] fatal <==> !istype(err, *client.ClientErr)
+//@ ensures[value] !fatal ==> result0 == err.(*client.ClientErr)
+//@ assigns fatal
+//@ props C17
+
+//@ unit HasNSendErrors
+//@ requires !fatal && tagof(t) != 0
+//@ requires[no-typed-nil] istype(err, *client.ClientErr) ==> payload(err) != 0
+//@ ensures[nil-is-zero] err == nil ==> (fatal <==> count != 0)
+//@ ensures[count] istype(err, *client.ClientErr) && err.(*client.ClientErr) != nil ==> (fatal <==> len(err.(*client.ClientErr).Send) != count)
+//@ assigns fatal
+//@ props C17
+
+//@ unit HasNRecvErrors
+//@ requires !fatal && tagof(t) != 0
+//@ requires[no-typed-nil] istype(err, *client.ClientErr) ==> payload(err) != 0
+//@ ensures[nil-is-zero] err == nil ==> (fatal <==> count != 0)
+//@ ensures[count] istype(err, *client.ClientErr) && err.(*client.ClientErr) != nil ==> (fatal <==> len(err.(*client.ClientErr).Recv) != count)
+//@ assigns fatal
+//@ props C17
+
+// inRes: r is one of the results.
+//@ pred inRes(res []*client.OpResult, n Int, r *client.OpResult) = exists i in 0..n :: res[i] == r
+//@ pred allIn(m map[uint64]*client.OpResult, res []*client.OpResult, n Int) = forall k in dom(m) :: inRes(res, n, m[k])
+//@ pred allInS(m map[string]*client.OpResult, res []*client.OpResult, n Int) = forall k in dom(m) :: inRes(res, n, m[k])
+//@ pred wantFound(res []*client.OpResult, want *client.OpResult, opt []resultOpt) = exists i in 0..len(res) :: wantMatches(res[i], want, opt)
+
+//@ unit HasResultsCache
+//@ requires !fatal && tagof(t) != 0
+//@ requires[non-nil] (forall i in 0..len(res) :: res[i] != nil) && (forall j in 0..len(wants) :: wants[j] != nil)
+//@ ensures[never-vacuous] !fatal ==> forall j in 0..len(wants) :: wantFound(res, wants[j], opt)
+//@ loop 1 at "range res" invariant allIn(byOpID, res, loopi) && allIn(byNHID, res, loopi) && allIn(byNHGID, res, loopi) && allIn(byMPLSLabel, res, loopi)
+//@ loop 1 invariant allInS(byIPv4Prefix, res, loopi) && allInS(byIPv6Prefix, res, loopi) && !fatal
+//@ loop 1 invariant byOpID != nil && byNHID != nil && byNHGID != nil && byMPLSLabel != nil && byIPv4Prefix != nil && byIPv6Prefix != nil
+//@ loop 2 at "range wants" invariant !fatal && (forall j in 0..loopi :: wantFound(res, wants[j], opt))
+//@ loop 2 invariant allIn(byOpID, res, len(res))
+//@ loop 3 at "range wants" invariant !fatal && (forall j in 0..loopi :: wantFound(res, wants[j], opt))
+//@ loop 3 invariant allIn(byNHID, res, len(res)) && allIn(byNHGID, res, len(res)) && allIn(byMPLSLabel, res, len(res)) && allInS(byIPv4Prefix, res, len(res)) && allInS(byIPv6Prefix, res, len(res))
+//@ assigns fatal
+//@ props C17
